@@ -245,10 +245,9 @@ func c11CheckShapes(c c11ShapeCase) engine.Result {
 	var w ref.BitWriter
 	p := ref.PES{StreamID: id}
 	c11SetFlags6(&p, c.Flags6)
-	opts := []int{0, 1}
+	opts := []int{0, 1, 2, 3, 4, 5, 6, 7, 8, 9}
 	pairs := c11TSPairs[:7]
 	if c.Thorough {
-		opts = []int{0, 1, 2, 3, 4, 5, 6, 7, 8, 9}
 		pairs = c11TSPairs
 	}
 	engine.Guard(&res, "NewPESHeader", func() {
@@ -336,6 +335,59 @@ func c11GenShapes(r *engine.Run, emit func(c11ShapeCase)) {
 			emit(c11ShapeCase{id, f, r.Thorough()})
 		}
 	}
+}
+
+// ---- scenario "optional-field-subsets" ------------------------------------------------------------------
+
+type c11SubsetCase struct {
+	Subset int `json:"subset"`    // bit 0 ESCR, 1 ES_rate, 2 DSM_trick_mode, 3 additional_copy_info, 4 previous_PES_packet_CRC, 5 PES_extension
+	ExtVar int `json:"extension"` // which extension when bit 5 is set
+}
+
+// every subset of the six optional fields behind the timestamps, with PES_header_data_length exactly as long as
+// the fields need and with one and two stuffing bytes (a decoder that recomputes the field sizes sees every sum)
+func c11CheckSubsets(c c11SubsetCase) engine.Result {
+	var res engine.Result
+	var w ref.BitWriter
+	engine.Guard(&res, "NewPESHeader", func() {
+		for _, id := range [...]byte{0xE0, 0xC0, 0xBD, 0xFD} {
+			p := ref.PES{StreamID: id}
+			c11SetFlags6(&p, 0x04)
+			c11ApplyOpt(&p, 0)
+			p.HasESCR, p.HasESRate, p.HasTrick, p.HasCopyInfo, p.HasCRC = c.Subset&1 != 0, c.Subset&2 != 0, c.Subset&4 != 0, c.Subset&8 != 0, c.Subset&16 != 0
+			if c.Subset&32 != 0 {
+				switch c.ExtVar {
+				case 0:
+					p.Ext = &ref.PESExtension{}
+				case 1:
+					p.Ext = &ref.PESExtension{PrivateData: c11Private, HasPSTD: true, PSTDSize: 1}
+				default:
+					p.Ext = &ref.PESExtension{HasSeqCounter: true, SeqCounter: 1, Ext2: []byte{0x00}}
+				}
+			}
+			for _, flags := range [...]byte{0, 2, 3} {
+				p.PTSDTS = flags
+				p.PTS, p.DTS = c11TSPairs[1][0], c11TSPairs[1][1]
+				for st := 0; st <= 2; st++ {
+					p.Stuffing = st
+					for _, pl := range [...]int{0, 5} {
+						p.Payload = c11Payload[:pl]
+						p.PacketLength = -1
+						w.Reset()
+						_, dataAt := p.AppendTo(&w)
+						res.Nontrivial++
+						c11Judge(&res, w.Out(), c11Optional, id, &p, dataAt)
+						if len(res.Fail) > 8 {
+							return
+						}
+					}
+				}
+			}
+		}
+	})
+	res.Trans += res.Evals
+	res.Outcome(c.Subset)
+	return res
 }
 
 // ---- scenario "large-buffers" ----------------------------------------------------------------------
@@ -638,8 +690,24 @@ func init() {
 		Scenarios: []engine.ScenarioRunner{
 			&engine.Enum[c11ShapeCase]{
 				Name: "header-shapes",
-				Rule: "case = stream_id (all 256) x low six bits of the first flag byte (scrambling, priority, alignment, copyright, original: 6 patterns, thorough 36); Check builds every combination of PTS_DTS_flags {00,10,11} x timestamp pairs (7 boundary pairs, thorough 12) x other optional fields {none, ESCR+ES_rate+trick+copy_info+CRC+extension} (thorough: also each field alone and 3 extension variants) x header stuffing {0,1,2,3, up to PES_header_data_length 255} x payload {0,1,5 bytes} x PES_packet_length {consistent, 0, 0xFFFF}; ids with optional header: prefix, stream id, DataAligned, HasPTS/HasDTS, PTS/DTS values, Data() vs. the builder's data offset; the 7 ids without optional header: the same bytes (plus cuts to 1,2,3,5 data bytes) must come back from offset 6; 0xBC: prefix and id only; every prefix of the header is executed for panics, and where it ends behind the timestamps their presence and values are judged; non-trivial = each distinct byte string judged",
+				Rule: "case = stream_id (all 256) x low six bits of the first flag byte (scrambling, priority, alignment, copyright, original: 6 patterns, thorough 36); Check builds every combination of PTS_DTS_flags {00,10,11} x timestamp pairs (7 boundary pairs, thorough 12) x other optional fields {none, ESCR+ES_rate+trick+copy_info+CRC+extension, each field alone, 3 extension variants} x header stuffing {0,1,2,3, up to PES_header_data_length 255} x payload {0,1,5 bytes} x PES_packet_length {consistent, 0, 0xFFFF}; ids with optional header: prefix, stream id, DataAligned, HasPTS/HasDTS, PTS/DTS values, Data() vs. the builder's data offset; the 7 ids without optional header: the same bytes (plus cuts to 1,2,3,5 data bytes) must come back from offset 6; 0xBC: prefix and id only; every prefix of the header is executed for panics, and where it ends behind the timestamps their presence and values are judged; non-trivial = each distinct byte string judged",
 				Gen:  c11GenShapes, Check: witnessEnum(c11CheckShapes, witnessPES), Batch: 1,
+			},
+			&engine.Enum[c11SubsetCase]{
+				Name: "optional-field-subsets",
+				Rule: "case = every subset of the six optional fields behind the timestamps (ESCR, ES_rate, DSM_trick_mode, additional_copy_info, previous_PES_packet_CRC, PES_extension in 3 variants); 4 stream ids x PTS_DTS_flags {00,10,11} x header stuffing {0,1,2} (PES_header_data_length exactly the size of the flagged fields, +1, +2) x payload {0,5}; all observables as in header-shapes; non-trivial = each header",
+				Gen: func(r *engine.Run, emit func(c11SubsetCase)) {
+					for s := 0; s < 64; s++ {
+						if s&32 == 0 {
+							emit(c11SubsetCase{s, 0})
+							continue
+						}
+						for v := 0; v < 3; v++ {
+							emit(c11SubsetCase{s, v})
+						}
+					}
+				},
+				Check: c11CheckSubsets, Batch: 4,
 			},
 			&engine.Enum[c11TSCase]{
 				Name: "timestamps",
